@@ -53,9 +53,6 @@ pub fn store_hash(x: usize) -> MerkleHash {
 pub static mut GHOST_POS: [[u32; NIDS]; 2] = [[0; NIDS]; 2];
 pub static mut REGISTERED: [([u64; 4], [u8; MAXN], usize); 4] = [([0; 4], [0; MAXN], 0); 4];
 pub static mut N_REGISTERED: usize = 0;
-pub static mut CALL_BASE: usize = 0;
-pub static mut CALL_LEN: usize = 0;
-pub static mut SHAPE: Option<Shape> = None;
 pub const STORE_SIZE: u32 = 8;
 
 pub fn ghost_any() {
@@ -80,18 +77,25 @@ pub fn ghost_any() {
     }
 }
 
-pub struct Mock;
+/// Answers are compile-time constants (const generics) so that the control flow they steer stays
+/// concrete during symbolic execution: A packs the per-position answers in octal digits (0 = miss,
+/// k = truthful hit of run length k), N the file's chunk count, SPLIT the first call's length.
+pub struct Mock<const A: u64, const N: usize, const SPLIT: usize> {
+    pub cfg: Cfg,
+    pub calls_done: usize,
+}
 
 #[async_trait]
-impl DeduplicationDataInterface for Mock {
+impl<const A: u64, const N: usize, const SPLIT: usize> DeduplicationDataInterface for Mock<A, N, SPLIT> {
     type ErrorType = ();
 
     async fn chunk_hash_dedup_query(&self, q: &[MerkleHash]) -> Result<Option<(usize, FileDataSequenceEntry)>, ()> {
-        let shape = unsafe { SHAPE.unwrap() };
-        let p = unsafe { CALL_BASE + (CALL_LEN - q.len()) };
-        match shape.ans[p] {
-            Ans::Miss => Ok(None),
-            Ans::Hit(n) => {
+        // position of q[0] in the file: the current call ends at SPLIT (first call) or N (second call)
+        let call_end = if self.calls_done == 0 { SPLIT } else { N };
+        let p = call_end - q.len();
+        match ((A >> (3 * p)) & 7) as usize {
+            0 => Ok(None),
+            n => {
                 // truthful: a stored xorb x holds q[0..n] at consecutive positions s..s+n
                 let x: usize = if kani::any() { 0 } else { 1 };
                 let s = unsafe { GHOST_POS[x][id_of(&q[0]) as usize] };
@@ -111,11 +115,12 @@ impl DeduplicationDataInterface for Mock {
         Ok(())
     }
     async fn complete_global_dedup_queries(&mut self) -> Result<bool, ()> {
+        // called exactly once per process_chunks call (it returns false, which ends the pass loop)
+        self.calls_done += 1;
         Ok(false)
     }
     async fn register_new_xorb(&mut self, xorb: RawXorbData) -> Result<(), ()> {
-        let shape = unsafe { SHAPE.unwrap() };
-        check_xorb(&xorb, &shape.cfg, false);
+        check_xorb(&xorb, &self.cfg, false);
         let nr = unsafe { N_REGISTERED };
         assert!(nr < 4, "harness bound: at most 4 xorbs cut per file");
         let mut ids = [0u8; MAXN];
@@ -180,13 +185,12 @@ pub fn mk_chunk(id: u8) -> Chunk {
 }
 
 /// Runs the shape and checks every obligation.
-pub fn run(shape: Shape) {
+pub fn run<const A: u64, const N: usize, const SPLIT: usize>(shape: Shape) {
     install_cfg(shape.cfg);
     ghost_any();
-    unsafe { SHAPE = Some(shape) };
     let with_ext: bool = kani::any();
     let salt: [u8; 32] = [kani::any(); 32];
-    let mut d = FileDeduper::new(Mock);
+    let mut d = FileDeduper::new(Mock::<A, N, SPLIT> { cfg: shape.cfg, calls_done: 0 });
     let n = shape.n;
     let mut chunks: Vec<Chunk> = Vec::new();
     let mut i = 0;
@@ -204,10 +208,6 @@ pub fn run(shape: Shape) {
         let (a, b) = if call == 0 { (0, shape.split) } else { (shape.split, n) };
         if call == 1 && a == b {
             break;
-        }
-        unsafe {
-            CALL_BASE = a;
-            CALL_LEN = b - a;
         }
         let m = kani::block_on(d.process_chunks(&chunks[a..b])).unwrap();
         let mut bytes = 0usize;
@@ -339,9 +339,22 @@ fn resolve(s: &FileDataSequenceEntry, idx: usize, agg: &DataAggregator) -> u8 {
 }
 
 // ---- harness generation ----------------------------------------------------------------------------
+pub const fn pack(ans: [Ans; MAXN]) -> u64 {
+    let mut a = 0u64;
+    let mut i = 0;
+    while i < MAXN {
+        let d = match ans[i] {
+            Ans::Miss => 0,
+            Ans::Hit(k) => k as u64,
+        };
+        a |= d << (3 * i);
+        i += 1;
+    }
+    a
+}
 #[macro_export]
 macro_rules! dd_proof {
-    ($name:ident, $shape:expr) => {
+    ($name:ident, $n:expr, $ids:expr, $ans:expr, $split:expr, $cfg:expr) => {
         #[kani::proof]
         #[kani::stub(std::env::var, env_var_stub)]
         #[kani::stub(std::env::set_var, set_var_noop)]
@@ -349,17 +362,59 @@ macro_rules! dd_proof {
         #[kani::stub(merkledb::aggregate_hashes::file_node_hash, file_node_hash_stub)]
         #[kani::stub(mdb_shard::chunk_verification::range_hash_from_chunks, range_hash_stub)]
         #[kani::stub(std::hash::RandomState::new, rs_stub)]
+        #[kani::stub(<std::hash::DefaultHasher as std::hash::Hasher>::write, dh_write_stub)]
+        #[kani::stub(<std::hash::DefaultHasher as std::hash::Hasher>::finish, dh_finish_stub)]
         #[kani::stub(alloc::fmt::format, fmt_stub)]
         fn $name() {
-            $crate::dd::run($shape);
+            const ANS: [Ans; MAXN] = $ans;
+            $crate::dd::run::<{ $crate::dd::pack(ANS) }, { $n }, { $split }>(Shape { n: $n, ids: $ids, ans: ANS, split: $split, cfg: $cfg });
         }
     };
 }
 use Ans::{Hit as H, Miss as M};
-const NOCFG: Cfg = Cfg { min_chunk_divisor: 0, max_chunk_multiplier: 0, max_xorb_bytes: 0, max_xorb_chunks: 0, nranges: 0 };
-const fn cfg(max_chunks: usize, max_bytes: usize, nranges: usize) -> Cfg {
+pub const NOCFG: Cfg = Cfg { min_chunk_divisor: 0, max_chunk_multiplier: 0, max_xorb_bytes: 0, max_xorb_chunks: 0, nranges: 0 };
+pub const fn cfg(max_chunks: usize, max_bytes: usize, nranges: usize) -> Cfg {
     Cfg { min_chunk_divisor: 0, max_chunk_multiplier: 0, max_xorb_bytes: max_bytes, max_xorb_chunks: max_chunks, nranges }
 }
 // probe shapes
-dd_proof!(p_new3, Shape { n: 3, ids: [1, 2, 3, 0, 0], ans: [M, M, M, M, M], split: 3, cfg: NOCFG });
-dd_proof!(p_new2_hit1_nr1, Shape { n: 3, ids: [1, 2, 3, 0, 0], ans: [M, M, H(1), M, M], split: 3, cfg: cfg(0, 0, 1) });
+dd_proof!(p_new3, 3, [1, 2, 3, 0, 0], [M, M, M, M, M], 3, NOCFG);
+dd_proof!(p_new2_hit1_nr1, 3, [1, 2, 3, 0, 0], [M, M, H(1), M, M], 3, cfg(0, 0, 1));
+
+// ---- experiments -----------------------------------------------------------------------------------
+pub struct MockNone;
+#[async_trait]
+impl DeduplicationDataInterface for MockNone {
+    type ErrorType = ();
+    async fn chunk_hash_dedup_query(&self, _q: &[MerkleHash]) -> Result<Option<(usize, FileDataSequenceEntry)>, ()> {
+        Ok(None)
+    }
+    async fn register_global_dedup_query(&mut self, _c: MerkleHash) -> Result<(), ()> {
+        Ok(())
+    }
+    async fn complete_global_dedup_queries(&mut self) -> Result<bool, ()> {
+        Ok(false)
+    }
+    async fn register_new_xorb(&mut self, xorb: RawXorbData) -> Result<(), ()> {
+        std::mem::forget(xorb);
+        Ok(())
+    }
+}
+#[kani::proof]
+#[kani::stub(std::env::var, env_var_stub)]
+#[kani::stub(std::env::set_var, set_var_noop)]
+#[kani::stub(merkledb::aggregate_hashes::cas_node_hash, cas_node_hash_stub)]
+#[kani::stub(merkledb::aggregate_hashes::file_node_hash, file_node_hash_stub)]
+#[kani::stub(mdb_shard::chunk_verification::range_hash_from_chunks, range_hash_stub)]
+#[kani::stub(std::hash::RandomState::new, rs_stub)]
+#[kani::stub(<std::hash::DefaultHasher as std::hash::Hasher>::write, dh_write_stub)]
+#[kani::stub(<std::hash::DefaultHasher as std::hash::Hasher>::finish, dh_finish_stub)]
+#[kani::stub(alloc::fmt::format, fmt_stub)]
+fn e1_none3() {
+    install_cfg(NOCFG);
+    let mut d = FileDeduper::new(MockNone);
+    let chunks = [mk_chunk(1), mk_chunk(2), mk_chunk(3)];
+    let m = kani::block_on(d.process_chunks(&chunks)).unwrap();
+    assert!(m.total_chunks == 3 && m.new_chunks == 3);
+    assert!(m.total_bytes == 15);
+    std::mem::forget((d, chunks));
+}
